@@ -48,4 +48,14 @@ def run (nc maxSubsets : Nat) : Nat → List Int → List (List (List Int)) → 
       | [] => [lv]
       | chains :: rest => lv :: run nc (maxSubsets - 1) fuel (nextBuffer nc lv.values chains) rest
 
+/-- numerator and denominator of the returned `pf = np.prod( allProbs[ : numSteps ] )`, with the level
+probability `p0 = a / b` and `N` samples per level: a level that stored `p0` contributes `a / b`, a level
+that stored its failure fraction contributes `count / N` -/
+def pf (a b N : Nat) : List Level → Nat × Nat
+  | [] => (1, 1)
+  | lv :: t =>
+    match lv.prob with
+    | none => (a * (pf a b N t).1, b * (pf a b N t).2)
+    | some k => (k * (pf a b N t).1, N * (pf a b N t).2)
+
 end FF.Subset
